@@ -82,6 +82,10 @@ CHECKS.update({
     "C03": e1("TestC03", 1000, 30000),
     "C04": e1("TestC04", 240, 6000),
     "C05": e1("TestC05", 400, 10000),
+    "C06": {"steps": [REPLAYS, rapid("e2", "TestC06", 500, 12000, qshards=4, tshards=14, shrinktime="40s", timeout={"quick": 900, "thorough": 3000})],
+            "assumptions": E1_ASSUME + ["one access unit per write, so that every write causes at most one rotation and the state after each write is observable",
+                                        "a request counts as blocked when its goroutine is parked in sync.Cond.Wait/select (goroutine state, not a timeout); a lock wait counts as blocked only after 3 s",
+                                        "_HLS_msn equal to EXT-X-MEDIA-SEQUENCE (oldest listed entry): both 400 and a playlist are accepted (boundary pinned by TestMuxerExpiredSegment)"]},
     "C16": e1("TestC16", 1000, 30000),
     "C18": e1("TestC18", 400, 8000),
     "C19": e1("TestC19", 800, 30000),
